@@ -627,11 +627,31 @@ class Tr(object):
         raise Unsupported("iterator chain")
 
     # ------------------------------------------------------------------ returning
+    # err_mode: instead of the function itself, the state its mutable parameters are LEFT IN when it returns an error (Some state), and
+    # None when it does not return an error: used for the functions listed with errst=True, whose callees leave no state behind on error
+    err_mode = False
+
     def ret_ok(self, vtext, env):
         st = self.fn_state_tuple(env)
+        if self.err_mode:
+            return "None"
         if self.info.kind == "res":
             return "Ok %s" % self.tup(st + [vtext])
         return vtext
+
+    def leaf_err(self, etext, env):
+        if self.err_mode:
+            return "Some %s" % self.tup(self.fn_state_tuple(env))
+        return "Err %s" % etext
+
+    def leaf_panic(self, msg):
+        return "None" if self.err_mode else 'Panic "%s"' % msg
+
+    def bind_text(self, call, pat, body, env):
+        if self.err_mode:
+            return "match %s with Ok %s => %s | Err _ => Some %s | Panic _ => None end" % (
+                call, pat.lstrip("'"), body, self.tup(self.fn_state_tuple(env)))
+        return "bind (%s) (fun %s => %s)" % (call, pat, body)
 
     def tail(self, e, env):
         """the value the function returns (tail expression or argument of `return`)"""
@@ -649,7 +669,7 @@ class Tr(object):
         if k == "call" and e[1] == ("path", ["Err"]):
             return self.err_of(e[2][0], env)
         if k == "macro" and e[1] == "unreachable":
-            return 'Panic "%s: unreachable!() in %s"' % (self.cfg["file"], self.cfg["rust"])
+            return self.leaf_panic("%s: unreachable!() in %s" % (self.cfg["file"], self.cfg["rust"]))
         if k == "return":
             return self.tail(e[1], env)
         if self.info.kind == "res" and self.info.rust_ret.startswith("Result"):
@@ -660,13 +680,13 @@ class Tr(object):
     def tail_value(self, v, env):
         return self.ret_ok(v, env)
 
-    def err_of(self, e, env=None):
-        if env is not None and e[0] == "path" and len(e[1]) == 1 and e[1][0] in env and env[e[1][0]].kind == "val":
-            return "Err %s" % env[e[1][0]].coq
+    def err_of(self, e, env):
+        if e[0] == "path" and len(e[1]) == 1 and e[1][0] in env and env[e[1][0]].kind == "val":
+            return self.leaf_err(env[e[1][0]].coq, env)
         if e[0] == "path" and e[1][0] == "Error":
-            return "Err %s" % e[1][-1]
+            return self.leaf_err(e[1][-1], env)
         if e[0] == "call" and e[1][0] == "path" and e[1][1][0] == "Error":
-            return "Err %s" % e[1][1][-1]
+            return self.leaf_err(e[1][1][-1], env)
         raise Unsupported("error value")
 
     # ------------------------------------------------------------------ continuation-passing translation
@@ -689,7 +709,7 @@ class Tr(object):
             return self.continue_k(env)
         if kd == "macro":
             if e[1] == "unreachable":
-                return 'Panic "%s: unreachable!() in %s"' % (self.cfg["file"], self.cfg["rust"])
+                return self.leaf_panic("%s: unreachable!() in %s" % (self.cfg["file"], self.cfg["rust"]))
             if e[1] in ("debug", "trace", "info", "warn"):
                 return k("tt", env)            # logging
             raise Unsupported("macro %s!" % e[1])
@@ -699,17 +719,17 @@ class Tr(object):
             if inner[0] == "mcall" and inner[2] == "ok_or" and len(inner[3]) == 1:
                 t = self.fresh()
                 return self.cps(inner[1], env, lambda v, env2: "match %s with Some %s => %s | None => %s end" % (
-                    v, t, k(t, env2), self.err_of(inner[3][0])))
+                    v, t, k(t, env2), self.err_of(inner[3][0], env2)))
             if inner[0] == "mcall" and inner[2] == "map_err":
                 errv = inner[3][0]
                 if errv[0] != "closure":
                     raise Unsupported("map_err without a closure")
                 t = self.fresh()
                 return self.cps(inner[1], env, lambda v, env2: "match %s with Some %s => %s | None => %s end" % (
-                    v, t, k(t, env2), self.err_of(errv[2])))
+                    v, t, k(t, env2), self.err_of(errv[2], env2)))
             if self.ty_of(inner, env) == "res":
                 t = self.fresh("r")
-                return "bind %s (fun %s => %s)" % (self.pure(inner, env), t, k(t, env))
+                return self.bind_text(self.pure(inner, env), t, k(t, env), env)
             if self.info.kind == "option":
                 t = self.fresh()
                 return self.cps(inner, env, lambda v, env2: "match %s with Some %s => %s | None => None end" % (v, t, k(t, env2)))
@@ -793,7 +813,7 @@ class Tr(object):
                     bt = self.cps(body, env3, lambda v, env4: k(v, self.keep_alias(env2, env4, v)))
                 arms.append("| %s => %s" % (pt, bt))
             if is_res:
-                arms.append("| Panic panic_site => Panic panic_site")
+                arms.append("| Panic panic_site => %s" % ("None" if self.err_mode else "Panic panic_site"))
             return "match %s with %s end" % (scrut, " ".join(arms))
         return self.cps(e[1], env, go)
 
@@ -812,7 +832,7 @@ class Tr(object):
             # side-effect statements on buffers / writers
             if name == "push" and len(args) == 1 and recv[0] == "path" and recv[1][0] in env and env[recv[1][0]].mutable and env[recv[1][0]].ty == "reasons":
                 v = env[recv[1][0]].coq
-                return "bind (push_reason %s %s) (fun %s => %s)" % (v, self.pure(args[0], env), v, k("tt", env))
+                return self.bind_text("push_reason %s %s" % (v, self.pure(args[0], env)), v, k("tt", env), env)
             if name == "copy_from_slice":
                 return self.copy_from_slice(recv, args[0], env, k)
             if name == "try_write":
@@ -847,7 +867,7 @@ class Tr(object):
                 if a0[0] != "path" or a0[1][0] not in env or not env[a0[1][0]].mutable:
                     raise Unsupported("add_close_reason target")
                 v = env[a0[1][0]].coq
-                return "bind (add_reason %s %s) (fun %s => %s)" % (v, self.pure(args[1], env), v, k("tt", env))
+                return self.bind_text("add_reason %s %s" % (v, self.pure(args[1], env)), v, k("tt", env), env)
             fi = self.known_fn((self.impl if f[1][-2] == "Self" else f[1][-2]) if len(f[1]) >= 2 else None, f[1][-1])
             if fi is None:
                 return self.cps_list(args, env, lambda vs, env2: k(self.pure(("call", f, [("raw", v) for v in vs]), env2), env2))
@@ -927,7 +947,7 @@ class Tr(object):
                 b = env[item[1]]
                 pre.extend(self.write_back(b, env))
         body = " ".join(pre + [k(v, env2)])
-        return "bind (%s) (fun '%s => %s)" % (call, self.tup(binders + [v]), body)
+        return self.bind_text(call, "'" + self.tup(binders + [v]), body, env)
 
     def write_back(self, b, env):
         """after a change of an alias variable: rebuild the place it aliases (and, transitively, the place that one aliases)"""
@@ -1052,7 +1072,7 @@ class Tr(object):
             e = s[1]
             if e[0] == "macro" and e[1] == "assert":
                 c = parse_all(split_macro_args(e[2])[0])
-                return '(if %s then %s else Panic "%s: assert! in %s")' % (self.pure(c, env), nxt(env), self.cfg["file"], self.cfg["rust"])
+                return '(if %s then %s else %s)' % (self.pure(c, env), nxt(env), self.leaf_panic("%s: assert! in %s" % (self.cfg["file"], self.cfg["rust"])))
             if e[0] == "loop" and not rest and tail is None and tail_mode:
                 return self.loop(e, env, None)
             if e[0] in ("loop", "while"):
@@ -1155,8 +1175,8 @@ class Tr(object):
                 pty = (ob.ty or "")[len("Option<"):-1] if (ob.ty or "").startswith("Option<") else None
                 c = cn(name)
                 nb = B("alias", c, ty=pty, mutable=True, place=pl[0], ctor="Some", place_b=pl[1])
-                return "match %s with Some %s => %s | None => Panic \"%s: unwrap() of None in %s\" end" % (
-                    pl[0], c, nxt(self.bind(env, name, nb)), self.cfg["file"], self.cfg["rust"])
+                return "match %s with Some %s => %s | None => %s end" % (
+                    pl[0], c, nxt(self.bind(env, name, nb)), self.leaf_panic("%s: unwrap() of None in %s" % (self.cfg["file"], self.cfg["rust"])))
         if x[0] == "struct" and x[1] in structs:
             fields = dict(x[2])
             if sorted(fields) != sorted(structs[x[1]]):
@@ -1671,7 +1691,7 @@ def translate_skeleton(text, cfg, consts):
 # whose inputs can be named by a substitution (`self.inner.x` becomes the mutable parameter inner_x, the call of a parser that the
 # model has its own definition of becomes a parameter of the result monad).  Translated by the same translator as FUNCS2.
 FLOWFUNCS = [
-    dict(coq="gen_try_read_100", file="src/client/flow.rs", impl=r"impl<B>\s+Flow<B,\s*Await100>", rust="try_read_100",
+    dict(coq="gen_try_read_100", file="src/client/flow.rs", impl=r"impl<B>\s+Flow<B,\s*Await100>", rust="try_read_100", errst=True,
          subst=[(r"try_parse_response::<0>\(input\)", "parsed"), (r"self\.inner\.", "inner_"), (r"response\.status\(\)", "response")],
          params=[("inner_close_reason", "mutval", "list reason", None), ("inner_should_send_body", "mutval", "bool", None),
                  ("inner_await_100_continue", "mutval", "bool", None), ("parsed", "val", "res (option (N * N))", "res")],
@@ -1742,7 +1762,7 @@ FLOWFUNCS = [
     # none; installs the body writer the analysis chose.  The analysis itself (gen_analyze) is a value here, AmendedRequest::set_header
     # is the model's reading of it on the list of added headers (name lower-cased and validated, capacity of the ArrayVec), the URI's
     # host is a value (a valid header value by construction of http::Uri).
-    dict(coq="gen_call_analyze_request", file="src/client/call.rs", impl=r"impl<State, B>\s+Call<State,\s*B>", rust="analyze_request",
+    dict(coq="gen_call_analyze_request", file="src/client/call.rs", impl=r"impl<State, B>\s+Call<State,\s*B>", rust="analyze_request", errst=True,
          subst=[(r"self\s*\.request\s*\.analyze\(self\.state\.writer, self\.state\.skip_method_body_check\)", "analyze_result"),
                 (r"let info = analyze_result\?;", "let (info_body_mode, info_req_host_header, info_req_body_header) = analyze_result?;"),
                 (r"info\.", "info_"), (r"self\.request\.uri\(\)\.host\(\)", "uri_host"),
@@ -1820,7 +1840,7 @@ FLOWFUNCS = [
 ]
 
 
-def translate_custom(text, cfg, known_all=None):
+def translate_custom(text, cfg, known_all=None, err_mode=False):
     if cfg.get("impl"):
         sig, body = find_fn_in_impl(text, cfg["impl"], cfg["rust"])
     else:
@@ -1848,6 +1868,7 @@ def translate_custom(text, cfg, known_all=None):
             known.setdefault(key, fi)
     tr = Tr(cfg, {}, known)
     tr.info = info
+    tr.err_mode = err_mode
     tr.types = {}
     env = {"__order__": []}
     binders = []
@@ -1874,7 +1895,9 @@ def translate_custom(text, cfg, known_all=None):
             binders.append("(%s : %s)" % (c, t))
             tr.types[c] = t
     code = tr.stmts(blk[1], blk[2], env, None, tail_mode=True)
-    return "\n".join(tr.aux + ["Definition %s %s :=\n  %s." % (cfg["coq"], " ".join(binders), code)])
+    if err_mode and tr.aux:
+        raise Unsupported("error-state translation of a function with loops")
+    return "\n".join(tr.aux + ["Definition %s%s %s :=\n  %s." % (cfg["coq"], "_errst" if err_mode else "", " ".join(binders), code)])
 
 
 BASELINE = os.path.join(os.path.dirname(os.path.abspath(__file__)), "gen2_baseline.json")
@@ -1943,6 +1966,9 @@ def _generate(repo, base, force):
             if cfg["coq"] in force:
                 raise Unsupported(force[cfg["coq"]])
             code = translate_custom(open(os.path.join(repo, cfg["file"])).read(), cfg, known)
+            if cfg.get("errst"):
+                # the state the mutable parameters are left in when the function returns an error
+                code += "\n" + translate_custom(open(os.path.join(repo, cfg["file"])).read(), cfg, known, err_mode=True)
             chunks.append("(* %s :: fn %s (fields of self.inner as parameters) *)\n%s\n" % (cfg["file"], cfg["rust"], code))
             done.append(cfg["coq"])
             if cfg.get("register"):
